@@ -13,7 +13,7 @@ Definition entries : list (string * string * string * bool * bool) := [
   ("fprintf_s", "standard", "engine", false, false);
   ("vprintf_s", "standard", "libc", false, false);
   ("vfprintf_s", "standard", "engine", false, false);
-  ("swprintf_s", "none", "libc", true, false);
+  ("swprintf_s", "standard", "libc", true, false);
   ("vswprintf_s", "standard", "libc", true, false);
   ("snwprintf_s", "standard", "libc", true, false);
   ("vsnwprintf_s", "standard", "libc", true, false);
